@@ -153,14 +153,14 @@ type MapRule struct {
 }
 
 type BalFlags struct {
-	From, To       *cal.Day
-	Interval       cal.Interval
-	Last           int
-	Diff, Close    bool
-	Accounts       []string // --account regexes
-	Commodities    []string // --commodity regexes
-	Maps           []MapRule
-	Remap          []string
+	From, To    *cal.Day
+	Interval    cal.Interval
+	Last        int
+	Diff, Close bool
+	Accounts    []string // --account regexes
+	Commodities []string // --commodity regexes
+	Maps        []MapRule
+	Remap       []string
 }
 
 // Argv renders the flags for the knut command line (without -v, --csv etc.).
